@@ -38,6 +38,14 @@ func genOps(c *hx.Rand, n int, cmd, odd bool) string {
 	return strings.Join(ops, " ")
 }
 
+func collisionOps(c *hx.Rand, cmd bool, st *hx.Stats) string {
+	var ops []string
+	for _, o := range storew.GenCollisionOps(c, cmd, st) {
+		ops = append(ops, o.String())
+	}
+	return strings.Join(ops, " ")
+}
+
 func gen(r *hx.Rand, n int, tier string, emit func(string), st *hx.Stats) {
 	maxOps := 10
 	if tier == "thorough" {
@@ -46,6 +54,13 @@ func gen(r *hx.Rand, n int, tier string, emit func(string), st *hx.Stats) {
 	for i := 0; i < n; i++ {
 		c := r.Fork()
 		odd := c.Chance(1, 3)
+		if i%6 == 5 {
+			// near-collision batches: keys that differ in one field / at one field boundary, stored, then named together
+			backend := []string{"sql", "mem", "sql", "cmdsql", "mem", "cmdmem"}[(i/6)%6]
+			st.Inc("collision-" + backend)
+			emit("H " + backend + " " + collisionOps(c, strings.HasPrefix(backend, "cmd"), st))
+			continue
+		}
 		k := c.Intn(100)
 		switch {
 		case k < 24:
